@@ -853,6 +853,13 @@ def stream_relto(rng, tier):
                 if d.startswith("s://h"):
                     yield "reltoref %s %s %s" % (f, hx((base + t)[2:]), hx(d[2:]))
                     yield "reltoref %s %s %s" % (f, hx((base + t)[5:]), hx(d[5:]))
+    # authorities that differ in spelling only, or in one sub-component only
+    apairs = [("h:", "h"), ("h", "h:"), ("u@h", "h"), ("h", "@h"), ("H", "h"), ("h:80", "h:080"), ("%68", "h"),
+              ("h:80", "h"), ("u:p@h", "u@h"), ("[::1]", "[::1]:"), ("[::A]", "[::a]"), ("h.", "h"), ("h", "h")]
+    for x, y in apairs:
+        for pa, pb in [("/a/b", "/a/c"), ("/a/b/", "/a/b/c"), ("", "/a"), ("/", ""), ("/a?q", "/a")]:
+            for f in "ui":
+                yield "relto %s %s %s" % (f, hx("s://" + x + pa), hx("s://" + y + pb))
     # the same-document shortcut compares texts: a base whose last segment *decodes* to the rest of
     # the target (escaped `/`, escaped letters, escaped dots) is another document
     for d in ["s://h/docs/", "s://h/", "s:/a/", "s:a/"]:
@@ -1078,6 +1085,12 @@ def stream_pct(rng, tier):
         if f == "u":
             s = s.replace("é", "e")
         yield "pct %s %s %s" % (f, rng.choice(kinds), hx(s))
+        # sub-delims, `=`/`+`/`&` and friends around escapes (what form-encoding or "canonicalising"
+        # code would touch), per kind with the delimiters that kind allows
+        k2 = rng.choice(kinds)
+        extra = {"segment": (":", "@"), "userinfo": (":",), "host": (), "query": (":", "@", "/", "?"),
+                 "fragment": (":", "@", "/", "?")}[k2]
+        yield "pct %s %s %s" % (f, k2, hx(rand_component(rng, f, extra, private=(k2 == "query"))))
     for s in exhaustive("a%4C3é", 4 if tier == "quick" else 5):
         yield "pct i segment %s" % hx(s)
     # components reached from a whole reference (parts, authority parts, segment iteration)
